@@ -259,6 +259,54 @@ def variational(S, dist, B, M, n):
             S.prove_eq(elbo[b], as_sym_arr(SH.get(re)), "ELBO element %d = replica" % b)
 
 
+def model_list(S, n1, n2):
+    """IndependentModelList = its members' outputs; SumMarginalLogLikelihood (with and without per-member params) = mean of the
+       members' MLLs (see C02.sum_mll)"""
+    from .C02 import sum_mll
+    sum_mll(S, n1, n2)
+
+
+def variational_shapes(S, dist, first):
+    """one un-batched variational model, evaluation mode, called on inputs of DIFFERENT batch shapes one after the other:
+       every call = an independent replica's output for that slice (the cached Cholesky factor of K_zz must not leak its shape)"""
+    from gpytorch import variational as V
+    from .C14 import VGP, _make_dist
+    M, n = 2, 1
+    N = M + n
+    Gs, Gc = S.factor("g", N)
+    table = (Gc @ Gc.T).contiguous()
+    S.put(table, Gs @ Gs.T)
+    d, Mq, Cq = _make_dist(S, dist, M, ())
+    model = VGP(V.VariationalStrategy, d, labels(0, M), table, make_mean("constant"))
+    declare_params(S, model.mean_module, "mean_")
+    for p in model.parameters():
+        p.requires_grad_(False)
+    model.variational_strategy.variational_params_initialized.fill_(1)
+    model.eval()
+    X = labels(M, N)
+    shapes = {"batched_first": [(2,), ()], "unbatched_first": [(), (2,), (2, 1)], "two_batches": [(2,), (3,), ()]}[first]
+    with S.mode():
+        fresh = VGP(V.VariationalStrategy, type(d)(M), labels(0, M), table, make_mean("constant"))
+        with torch.no_grad():
+            src = dict(model.named_parameters())
+            for nme, p in fresh.named_parameters():
+                p.copy_(src[nme])
+        fresh.variational_strategy.variational_params_initialized.fill_(1)
+        fresh.eval()
+        ref = fresh(X)
+        Mref, Cref = as_sym_arr(SH.get(ref.mean)).copy(), as_sym_arr(SH.get(ref.covariance_matrix)).copy()
+        for bs in shapes:
+            Xb = X.expand(*bs, n, 1).contiguous() if bs else X
+            out = S.must_not_raise("variational model on inputs of batch shape %s" % (bs,), lambda: model(Xb))
+            mean_t, cov_t = out.mean, out.covariance_matrix
+            S.check_concrete(tuple(mean_t.shape) == tuple(bs) + (n,), "output shape for input batch %s" % (bs,), str(tuple(mean_t.shape)))
+            if tuple(mean_t.shape) != tuple(bs) + (n,):
+                continue
+            for b in (np.ndindex(*bs) if bs else [()]):
+                S.prove_eq(mean_t[b] if bs else mean_t, Mref, "q(f) mean, input batch %s element %s = replica" % (bs, list(b)))
+                S.prove_eq(cov_t[b] if bs else cov_t, Cref, "q(f) covariance, input batch %s element %s = replica" % (bs, list(b)))
+
+
 def scenarios(tier, seed):
     out = []
     def add(fn, **p):
@@ -278,6 +326,9 @@ def scenarios(tier, seed):
             add("kernel_index", kind=kind, B=2, diag=True)
         add("variational", dist="cholesky", B=2, M=2, n=1)
         add("variational", dist="meanfield", B=3, M=1, n=2)
+        add("variational_shapes", dist="cholesky", first="batched_first")
+        add("variational_shapes", dist="meanfield", first="unbatched_first")
+        add("model_list", n1=2, n2=3)
     else:
         for kind in ("rbf", "scale_rbf", "rq", "linear"):
             for (p, d) in pairs:
@@ -298,4 +349,8 @@ def scenarios(tier, seed):
             add("variational", dist=dist, B=2, M=2, n=1)
             add("variational", dist=dist, B=3, M=1, n=2)
         add("variational", dist="cholesky", B=2, M=2, n=2)
+        for first in ("batched_first", "unbatched_first", "two_batches"):
+            add("variational_shapes", dist="cholesky", first=first)
+        add("model_list", n1=2, n2=3)
+        add("model_list", n1=3, n2=3)
     return out
